@@ -670,6 +670,14 @@ def extract_fn(src, loc, spec, ed):
                 raise Undecided("lost anchor: loop #%d of %s" % (k, name))
             apply_slice(src, ed, loops_all[k]["open"], loops_all[k]["close"], tbl, "%s loop #%d" % (name, k), spec.get("forbidden", ()))
             abstracted.append(loops_all[k])
+    # text replaced by a declared body substitution is not rewritten by the generic rules either
+    _b_lo, _b_hi = toks[brace].end, toks[close].pos
+    for (pat, repl, why) in spec.get("body_subst", []) + spec.get("body_subst_optional", []):
+        for m in re.finditer(pat, src.text[_b_lo:_b_hi]):
+            a, b = _b_lo + m.start(), _b_lo + m.end()
+            ts = [i for i in range(brace + 1, close) if a <= toks[i].pos < b]
+            if ts:
+                SKIP.append((ts[0], ts[-1] + 1))
     # body rules (not inside abstracted statements: overlapping edits are rejected by Edits.apply)
     F64_FIELDS[:] = spec.get("f64_fields", [])
     for r in spec.get("rules", ["R3", "R1", "R9", "R12", "R13", "R10"]):
